@@ -490,6 +490,9 @@ class ExprMixin(object):
             a = self.adapt(a, b.ty)
         if b.ty is STATIC and isinstance(a.ty, List):
             b = self.adapt(b, a.ty)
+        if isinstance(a.ty, List) and isinstance(b.ty, Opt) and b.ty.elem == a.ty:
+            self.notes.append("list + optional list: the optional operand is taken as present (None would be a TypeError)")
+            b = core.oval(b)
         if a.ty is EMPTY_LIST and isinstance(b.ty, List):
             a = self.adapt(a, b.ty)
         if b.ty is EMPTY_LIST and isinstance(a.ty, List):
@@ -704,10 +707,22 @@ class ExprMixin(object):
             for st2, hi in his:
                 if isinstance(c.ty, List):
                     n = core.llen(c)
-                    lo_t = z3.IntVal(0) if lo is None else _clamp(self.norm_index(c, lo), n)
-                    hi_t = n if hi is None else _clamp(self.norm_index(c, hi), n)
+                    def nrm_l(v, n=n):
+                        i = coerce(v, INT).t
+                        return _clamp(z3.If(i < 0, n + i, i), n)        # the same normal form in code and in specifications
+                    lo_t = z3.IntVal(0) if lo is None else nrm_l(lo)
+                    hi_t = n if hi is None else nrm_l(hi)
                     ln = z3.If(hi_t > lo_t, hi_t - lo_t, z3.IntVal(0))
-                    r = fresh(c.ty, "slice")
+                    # a slice is a function of (list, bounds): identical terms give the identical result symbol
+                    memo = self.__dict__.setdefault("_slice_memo", [])
+                    lo_s, hi_s = z3.simplify(lo_t), z3.simplify(hi_t)
+                    r = None
+                    for (c2, lo2, hi2, r2) in memo:
+                        if c2.eq(c.t) and lo2.eq(lo_s) and hi2.eq(hi_s):
+                            r = r2
+                    if r is None:
+                        r = fresh(c.ty, "slice")
+                        memo.append((c.t, lo_s, hi_s, r))
                     st3 = st2.copy()
                     st3.assume(core.llen(r) == ln,
                                core.forall_int(0, core.llen(r), lambda j: z3.Select(core.larr(r), j) == z3.Select(core.larr(c), lo_t + j)))
